@@ -168,6 +168,53 @@ func (d *Descriptor) read(out Outputter, data []byte) (n int, err error) {
 	return 0, fmt.Errorf("unrecognised field type %s", d.Type)
 }
 
+// writeZero outputs the value a field of this type has when it is absent from
+// the data
+func (d *Descriptor) writeZero(out Outputter) {
+	if d.ExplicitPresence {
+		out.Raw("null")
+		return
+	}
+	switch d.Type {
+	case FieldTypeInt:
+		out.Int64(0)
+	case FieldTypeFlatInt:
+		if d.LogicalType == LogicalTypeTimestamp {
+			out.Time(time.Time{})
+		} else {
+			out.Int64(0)
+		}
+	case FieldTypeUint:
+		out.Uint64(0)
+	case FieldTypeFloat32:
+		out.Float32(0)
+	case FieldTypeFloat64:
+		out.Float64(0)
+	case FieldTypeString:
+		out.String("")
+	case FieldTypeBool:
+		out.Bool(false)
+	case FieldTypeTime:
+		out.Time(time.Time{})
+	case FieldTypeSlice:
+		if d.isValidJSONMap() {
+			out.StartObject()
+			out.EndObject()
+		} else {
+			out.StartArray()
+			out.EndArray()
+		}
+	case FieldTypeStruct, FieldTypeJSONObject:
+		out.StartObject()
+		out.EndObject()
+	case FieldTypeJSONArray:
+		out.StartArray()
+		out.EndArray()
+	default:
+		out.Raw("null")
+	}
+}
+
 func (d *Descriptor) isValidJSONMap() bool {
 	if d.Type != FieldTypeSlice || d.LogicalType != LogicalTypeMap {
 		return false
@@ -249,6 +296,11 @@ func (d *Descriptor) readAsMapEntry(out Outputter, data []byte) (n int, err erro
 
 	l := len(data)
 
+	// The key and the value are omitted from the data when they are zero. They
+	// still need to appear in the output
+	key, value := &d.Elements[0], &d.Elements[1]
+	var keyDone, valueDone bool
+
 	var offset int
 	for offset < l {
 		wt, index, n := plenccore.ReadTag(data[offset:])
@@ -291,11 +343,28 @@ func (d *Descriptor) readAsMapEntry(out Outputter, data []byte) (n int, err erro
 			fl = int(v) + offset
 		}
 
+		if elt == value && !keyDone {
+			out.String("")
+			keyDone = true
+		}
+		if elt == key {
+			keyDone = true
+		} else {
+			valueDone = true
+		}
+
 		n, err := elt.read(out, data[offset:fl])
 		if err != nil {
 			return 0, fmt.Errorf("failed reading field %d(%s) of %s. %w", index, elt.Name, d.Name, err)
 		}
 		offset += n
+	}
+
+	if !keyDone {
+		out.String("")
+	}
+	if !valueDone {
+		value.writeZero(out)
 	}
 
 	return offset, nil
@@ -395,8 +464,9 @@ func (d *Descriptor) readAsJSON(out Outputter, data []byte) (n int, err error) {
 
 func (d *Descriptor) readJSONObjectKV(out Outputter, data []byte) (n int, err error) {
 	var (
-		jType  jsonType
-		offset int
+		jType     jsonType
+		offset    int
+		valueDone bool
 	)
 
 	for offset < len(data) {
@@ -432,6 +502,7 @@ func (d *Descriptor) readJSONObjectKV(out Outputter, data []byte) (n int, err er
 			jType = jsonType(v)
 			offset += n
 		case 3:
+			valueDone = true
 			switch jType {
 			case jsonTypeString:
 				l, n := plenccore.ReadVarUint(data[offset:])
@@ -516,6 +587,11 @@ func (d *Descriptor) readJSONObjectKV(out Outputter, data []byte) (n int, err er
 		default:
 			return 0, fmt.Errorf("unexpected json field index %d", index)
 		}
+	}
+
+	if !valueDone {
+		// nil has no value field
+		out.Raw("null")
 	}
 
 	return offset, nil
